@@ -37,9 +37,12 @@
         `spliceList_ok_transfer` + `doc_line_ending_reduction`.
 
   Hypotheses that remain, and why (OPEN blocks at the end give the exact missing lemmas):
-   * `hfuel : parseBlocks cfg.blockCfg src ≠ .error .fuel` — a statement about the MODEL's fuel, not
-     about the Rust: `fuelFor` depends on `|src|` (`min max_nesting |src|`), which the rewritings
-     change; that `fuelFor` is never exhausted is checked by the stream `block` but not proved.
+   * `hfuel : cfg.maxNesting ≤ |src| ∨ parseBlocks cfg.blockCfg src ≠ .error .fuel` — a statement about
+     the MODEL's fuel, not about the Rust: `fuelFor` depends on `|src|` (`min max_nesting |src|`), which
+     the rewritings change.  For a source of at least `max_nesting` bytes both runs have the same fuel
+     and nothing is assumed (`parseBlocks_res`: the simulation applied in both directions); for a
+     shorter one the run on `src` must not exhaust its fuel — it never does (stream `block`), but that
+     is not proved.
    * `doc_crlf_invariant` only: `hinl : ∀ e, parseDoc cfg src ≠ .error (.inline e)` — if the inline
      parser panics on the LF document, nothing is claimed (the CR LF document is then NOT known to
      panic alike: a panic of `map_end - count` depends on absolute offsets, which CR LF increases).
@@ -48,7 +51,7 @@ import MdIt.Lemmas.C10DocEngine
 import MdIt.Lemmas.C10DocLines
 import MdIt.Lemmas.C10DocInline
 
-namespace MdIt.Block
+namespace MdIt.Block.LE
 open MdIt.Lines (LineOffset linesT lfToCrlf lfToCr)
 
 /-! ## the block pass on two sources with related line tables -/
@@ -77,6 +80,43 @@ theorem fuelFor_le (cfg : Cfg) {s₁ s₂ : List Char} {ρ : Nat → Nat → Pro
   rw [Lines.splitLines_eq, Lines.splitLines_eq, Lines.offsetsOf_length, Lines.offsetsOf_length, h.length]
   omega
 
+theorem StartRel.symm {ρ : Nat → Nat → Prop} : ∀ {L₁ L₂ : List (List Char × List Char)} {a b : Nat},
+    StartRel ρ a b L₁ L₂ → StartRel (fun x y => ρ y x) b a L₂ L₁
+  | [], [], _, _, _ => trivial
+  | [], _ :: _, _, _, h => by simp [StartRel] at h
+  | _ :: _, [], _, _, h => by simp [StartRel] at h
+  | _ :: _, _ :: _, _, _, h => by
+    simp only [StartRel] at h ⊢
+    exact ⟨h.1.symm, h.2.1, StartRel.symm h.2.2⟩
+
+theorem Shift.flip {ρ : Nat → Nat → Prop} (h : Shift ρ) : Shift (fun x y => ρ y x) := ⟨fun d hr => h.add d hr⟩
+
+/-- the outcome of two block passes: related results or the same panic (the model's fuel panic
+    included) -/
+def BRes (ρ : Nat → Nat → Prop) (p₁ p₂ : Except Panic (BNode × Refs.RefMap)) : Prop :=
+  (∃ a b, p₁ = .ok a ∧ p₂ = .ok b ∧ BlocksRel ρ a b) ∨ (∃ e, p₁ = .error e ∧ p₂ = .error e)
+
+/-- **the block pass, symmetric form.**  When the shorter source has at least `max_nesting` bytes the
+    two runs have the SAME fuel and the simulation applies in both directions; otherwise the shorter
+    run must not exhaust its (smaller) fuel. -/
+theorem parseBlocks_res {ρ : Nat → Nat → Prop} (hs : Shift ρ) (cfg : Cfg) {s₁ s₂ : List Char}
+    (h : StartRel ρ 0 0 (linesT s₁) (linesT s₂)) (hb : Lines.byteLen s₁ ≤ Lines.byteLen s₂)
+    (hfuel : cfg.maxNesting ≤ Lines.byteLen s₁ ∨ parseBlocks cfg s₁ ≠ .error .fuel) :
+    BRes ρ (parseBlocks cfg s₁) (parseBlocks cfg s₂) := by
+  rcases parseBlocks_rel hs cfg h (fuelFor_le cfg h hb) with hA | hok | herr
+  · rcases hfuel with hm | hne
+    · have hf : fuelFor cfg s₂ ≤ fuelFor cfg s₁ := by
+        unfold fuelFor
+        rw [Lines.splitLines_eq, Lines.splitLines_eq, Lines.offsetsOf_length, Lines.offsetsOf_length, h.length]
+        omega
+      rcases parseBlocks_rel hs.flip cfg h.symm hf with hB | ⟨a, b, h1, h2, _⟩ | ⟨e, h1, h2⟩
+      · exact .inr ⟨_, hA, hB⟩
+      · rw [hA] at h2; cases h2
+      · rw [hA] at h2; cases h2; exact .inr ⟨_, hA, h1⟩
+    · exact absurd hA hne
+  · exact .inl hok
+  · exact .inr herr
+
 theorem byteLen_lfToCrlf (s : List Char) : Lines.byteLen s ≤ Lines.byteLen (lfToCrlf s) := by
   induction s with
   | nil => simp [lfToCrlf]
@@ -100,24 +140,23 @@ theorem byteLen_lfToCr (s : List Char) : Lines.byteLen (lfToCr s) = Lines.byteLe
     · simp only [Lines.byteLen_cons, ih]
 
 /-- LF ↦ CR LF at the block level -/
-theorem parseBlocks_crlf (cfg : Cfg) (src : List Char) (h : '\r' ∉ src) :
-    FRel (BlocksRel (· ≤ ·)) (parseBlocks cfg src) (parseBlocks cfg (lfToCrlf src)) :=
-  have hr := linesT_crlf _ src rfl h 0 0 (Nat.le_refl 0)
-  parseBlocks_rel shift_le cfg hr (fuelFor_le cfg hr (byteLen_lfToCrlf src))
+theorem parseBlocks_crlf (cfg : Cfg) (src : List Char) (h : '\r' ∉ src)
+    (hfuel : cfg.maxNesting ≤ Lines.byteLen src ∨ parseBlocks cfg src ≠ .error .fuel) :
+    BRes (· ≤ ·) (parseBlocks cfg src) (parseBlocks cfg (lfToCrlf src)) :=
+  parseBlocks_res shift_le cfg (linesT_crlf _ src rfl h 0 0 (Nat.le_refl 0)) (byteLen_lfToCrlf src) hfuel
 
 /-- LF ↦ CR at the block level: the same tree, ranges and per-line tables included -/
-theorem parseBlocks_cr (cfg : Cfg) (src : List Char) (h : '\r' ∉ src) :
-    FRel (BlocksRel Eq) (parseBlocks cfg src) (parseBlocks cfg (lfToCr src)) :=
-  have hr := linesT_cr _ src rfl h 0
-  parseBlocks_rel shift_eq cfg hr (fuelFor_le cfg hr (by rw [byteLen_lfToCr]; exact Nat.le_refl _))
+theorem parseBlocks_cr (cfg : Cfg) (src : List Char) (h : '\r' ∉ src)
+    (hfuel : cfg.maxNesting ≤ Lines.byteLen src ∨ parseBlocks cfg src ≠ .error .fuel) :
+    BRes Eq (parseBlocks cfg src) (parseBlocks cfg (lfToCr src)) :=
+  parseBlocks_res shift_eq cfg (linesT_cr _ src rfl h 0) (by rw [byteLen_lfToCr]; exact Nat.le_refl _) hfuel
 
 /-- a final LF at the block level: the same tree below the root -/
 theorem parseBlocks_final_newline (cfg : Cfg) (src : List Char)
-    (h : src.getLast? ≠ some '\n' ∧ src.getLast? ≠ some '\r') :
-    FRel (BlocksRel Eq) (parseBlocks cfg src) (parseBlocks cfg (src ++ ['\n'])) :=
-  have hr := linesT_final _ src rfl h 0
-  parseBlocks_rel shift_eq cfg hr (fuelFor_le cfg hr (by simp))
-
+    (h : src.getLast? ≠ some '\n' ∧ src.getLast? ≠ some '\r')
+    (hfuel : cfg.maxNesting ≤ Lines.byteLen src ∨ parseBlocks cfg src ≠ .error .fuel) :
+    BRes Eq (parseBlocks cfg src) (parseBlocks cfg (src ++ ['\n'])) :=
+  parseBlocks_res shift_eq cfg (linesT_final _ src rfl h 0) (by simp) hfuel
 
 /-! ### arbitrary sources with the same views -/
 
@@ -151,10 +190,10 @@ theorem parseBlocks_views (cfg : Cfg) (s₁ s₂ : List Char) (h : Lines.views s
     FRel (BlocksRel (fun _ _ => True)) (parseBlocks cfg s₁) (parseBlocks cfg s₂) :=
   parseBlocks_rel shift_true cfg (startRel_true _ _ 0 0 (lines_of_views h)) hf
 
-end MdIt.Block
+end MdIt.Block.LE
 
 namespace MdIt.Pipeline
-open MdIt.Block (FRel BlocksRel NRel NRelL KRel MRel RgRel)
+open MdIt.Block.LE (FRel BRes BlocksRel NRel NRelL KRel MRel RgRel)
 open MdIt.Lines (lfToCrlf lfToCr)
 
 /-! ## from the block relation to the erased trees of `Props/Pipeline.lean` -/
@@ -189,7 +228,7 @@ theorem parseBlocks_same_views (cfg : Block.Cfg) (s₁ s₂ : List Char) (h : Li
     | .ok (r₁, refs₁), .ok (r₂, refs₂) => eraseB r₁ = eraseB r₂ ∧ refs₁ = refs₂
     | .error e₁, .error e₂ => e₁ = e₂
     | _, _ => False := by
-  rcases Block.parseBlocks_views cfg s₁ s₂ h hf with h0 | ⟨a, b, h1, h2, hk, hc, hr⟩ | ⟨e, h1, h2⟩
+  rcases Block.LE.parseBlocks_views cfg s₁ s₂ h hf with h0 | ⟨a, b, h1, h2, hk, hc, hr⟩ | ⟨e, h1, h2⟩
   · exact absurd h0 hne
   · obtain ⟨⟨k₁, r₁, c₁⟩, refs₁⟩ := a
     obtain ⟨⟨k₂, r₂, c₂⟩, refs₂⟩ := b
@@ -234,16 +273,14 @@ theorem afterBlocks_root_range (x : Bool) (cfg : DocCfg) (hsp : cfg.sourcepos = 
 
 /-- two sources whose block passes agree up to the root's range render alike (`sourcepos` off) -/
 theorem renderDoc_of_blocks_eq (x : Bool) (cfg : DocCfg) (s₁ s₂ : List Char) (hsp : cfg.sourcepos = false)
-    (h : FRel (BlocksRel Eq) (Block.parseBlocks cfg.blockCfg s₁) (Block.parseBlocks cfg.blockCfg s₂))
-    (hfuel : Block.parseBlocks cfg.blockCfg s₁ ≠ .error .fuel) :
+    (h : BRes Eq (Block.parseBlocks cfg.blockCfg s₁) (Block.parseBlocks cfg.blockCfg s₂)) :
     renderDoc x cfg s₂ = renderDoc x cfg s₁ := by
-  rcases h with h | ⟨a, b, h1, h2, hk, hc, hr⟩ | ⟨e, h1, h2⟩
-  · exact absurd h hfuel
+  rcases h with ⟨a, b, h1, h2, hk, hc, hr⟩ | ⟨e, h1, h2⟩
   · obtain ⟨⟨k₁, r₁, c₁⟩, refs₁⟩ := a
     obtain ⟨⟨k₂, r₂, c₂⟩, refs₂⟩ := b
     simp only at hk hc hr
     subst hk hr
-    have := Block.NRelL.eq hc; subst this
+    have := Block.LE.NRelL.eq hc; subst this
     rw [renderDoc_eq_renderOf, renderDoc_eq_renderOf]
     unfold parseDoc
     rw [h1, h2]
@@ -253,21 +290,22 @@ theorem renderDoc_of_blocks_eq (x : Bool) (cfg : DocCfg) (s₁ s₂ : List Char)
 
 /-- **LF ↦ CR does not change the rendered HTML.** -/
 theorem doc_cr_invariant (x : Bool) (cfg : DocCfg) (src : List Char) (hsp : cfg.sourcepos = false)
-    (hcr : '\r' ∉ src) (hfuel : Block.parseBlocks cfg.blockCfg src ≠ .error .fuel) :
+    (hcr : '\r' ∉ src)
+    (hfuel : cfg.maxNesting ≤ Lines.byteLen src ∨ Block.parseBlocks cfg.blockCfg src ≠ .error .fuel) :
     renderDoc x cfg (lfToCr src) = renderDoc x cfg src :=
-  renderDoc_of_blocks_eq x cfg _ _ hsp (Block.parseBlocks_cr cfg.blockCfg src hcr) hfuel
+  renderDoc_of_blocks_eq x cfg _ _ hsp (Block.LE.parseBlocks_cr cfg.blockCfg src hcr hfuel)
 
 /-- **A final newline does not change the rendered HTML.** -/
 theorem doc_final_newline_invariant (x : Bool) (cfg : DocCfg) (src : List Char) (hsp : cfg.sourcepos = false)
     (hlast : src.getLast? ≠ some '\n' ∧ src.getLast? ≠ some '\r')
-    (hfuel : Block.parseBlocks cfg.blockCfg src ≠ .error .fuel) :
+    (hfuel : cfg.maxNesting ≤ Lines.byteLen src ∨ Block.parseBlocks cfg.blockCfg src ≠ .error .fuel) :
     renderDoc x cfg (src ++ ['\n']) = renderDoc x cfg src :=
-  renderDoc_of_blocks_eq x cfg _ _ hsp (Block.parseBlocks_final_newline cfg.blockCfg src hlast) hfuel
+  renderDoc_of_blocks_eq x cfg _ _ hsp (Block.LE.parseBlocks_final_newline cfg.blockCfg src hlast hfuel)
 
 end MdIt.Pipeline
 
 namespace MdIt.Pipeline
-open MdIt.Block (FRel BlocksRel NRel NRelL KRel MRel RgRel)
+open MdIt.Block.LE (FRel BRes BlocksRel NRel NRelL KRel MRel RgRel)
 open MdIt.Lines (lfToCrlf lfToCr)
 
 /-! ## LF ↦ CR LF: the inline pass on tables whose values moved right -/
@@ -392,11 +430,11 @@ end
 /-- **LF ↦ CR LF does not change the rendered HTML**, provided the inline parser does not panic on
     the LF document. -/
 theorem doc_crlf_invariant (x : Bool) (cfg : DocCfg) (src : List Char) (hsp : cfg.sourcepos = false)
-    (hcr : '\r' ∉ src) (hfuel : Block.parseBlocks cfg.blockCfg src ≠ .error .fuel)
+    (hcr : '\r' ∉ src)
+    (hfuel : cfg.maxNesting ≤ Lines.byteLen src ∨ Block.parseBlocks cfg.blockCfg src ≠ .error .fuel)
     (hinl : ∀ e, parseDoc cfg src ≠ .error (.inline e)) :
     renderDoc x cfg (lfToCrlf src) = renderDoc x cfg src := by
-  rcases Block.parseBlocks_crlf cfg.blockCfg src hcr with h | ⟨a, b, h1, h2, hk, hc, hr⟩ | ⟨e, h1, h2⟩
-  · exact absurd h hfuel
+  rcases Block.LE.parseBlocks_crlf cfg.blockCfg src hcr hfuel with ⟨a, b, h1, h2, hk, hc, hr⟩ | ⟨e, h1, h2⟩
   · obtain ⟨⟨k₁, r₁, c₁⟩, refs₁⟩ := a
     obtain ⟨⟨k₂, r₂, c₂⟩, refs₂⟩ := b
     simp only at hk hc hr
@@ -451,9 +489,15 @@ def exDoc : List Char := "- a  \n\tb\n```\nc".toList
 /-- all hypotheses of the three theorems hold of `exDoc` (stock chain, `max_nesting = 100`) … -/
 theorem exDoc_hyps :
     '\r' ∉ exDoc ∧ (exDoc.getLast? ≠ some '\n' ∧ exDoc.getLast? ≠ some '\r') ∧
-    Block.parseBlocks (exCfg false 100).blockCfg exDoc ≠ .error .fuel ∧
+    ((exCfg false 100).maxNesting ≤ Lines.byteLen exDoc ∨
+      Block.parseBlocks (exCfg false 100).blockCfg exDoc ≠ .error .fuel) ∧
     ∀ e, parseDoc (exCfg false 100) exDoc ≠ .error (.inline e) :=
-  ⟨by decide, by decide, not_fuel_of (by decide +kernel), not_inline_of (by decide +kernel)⟩
+  ⟨by decide, by decide, .inr (not_fuel_of (by decide +kernel)), not_inline_of (by decide +kernel)⟩
+
+/-- … and a document of at least `max_nesting` bytes needs no evaluation for the fuel hypothesis -/
+example (x : Bool) (src : List Char) (h : '\r' ∉ src) (hlen : 100 ≤ Lines.byteLen src) :
+    renderDoc x (exCfg false 100) (lfToCr src) = renderDoc x (exCfg false 100) src :=
+  doc_cr_invariant x _ _ rfl h (.inl hlen)
 
 /-- … so the theorems apply to it (the rewritten texts are what one expects) -/
 example : lfToCrlf exDoc = "- a  \r\n\tb\r\n```\r\nc".toList ∧ lfToCr exDoc = "- a  \r\tb\r```\rc".toList := by
@@ -494,7 +538,8 @@ example : (Block.parseBlocks (exCfg false 100).blockCfg "a\n\nb".toList).toOptio
 /-
   OPEN (what separates the three theorems from hypothesis-free statements):
 
-   1. `hfuel` — fuel sufficiency of the block MODEL:
+   1. `hfuel` (its second alternative; only documents shorter than `max_nesting` bytes need it) — fuel
+      sufficiency of the block MODEL:
           theorem parseBlocks_fuel (cfg : Block.Cfg) (src : List Char) : Block.parseBlocks cfg src ≠ .error .fuel
       (`fuelFor = #lines + min max_nesting |src| + 8`).  Needed because the rewritings change `|src|`,
       hence the fuel: `FRel` allows "side 1 out of fuel, side 2 (with more fuel) anything".  Proof plan:
@@ -516,6 +561,15 @@ example : (Block.parseBlocks (exCfg false 100).blockCfg "a\n\nb".toList).toOptio
       rule skips) — `Props/Inline.lean` has this (`TrailOK` from `RInv`) only for `MapOK` tables, which
       exclude split tabs.  Proved instead: the one-directional `inline_ok_transfer`.
       With such a lemma both panics would be excluded or equal and `hinl` could go.
+
+   3. `hsp : cfg.sourcepos = false` is NOT shown necessary: on 13 sample documents (all block kinds,
+      hard breaks, tabs in list items, nested containers) the output WITH `data-sourcepos` is the same
+      for LF / CR LF / CR / final newline as well — line:column positions absorb the terminator
+      length.  The simulation already delivers what a proof would need at the block level (`NRelL ρ`:
+      every range `ρ`-related to its counterpart, offsets at the same distance from the same line
+      start); missing:  `SourceMap.getPositions src₁ marks₁ (a₁, b₁) = SourceMap.getPositions src₂ marks₂ (a₂, b₂)`
+      for offsets at equal distances from the starts of the same lines, and the inline ranges
+      (`inline_ok_transfer_rel` gives `≤` only, not "same line, same distance").
 -/
 
 end MdIt.Pipeline
